@@ -52,6 +52,13 @@ def in_inst(I, name, ci, fields=None):
     return o
 
 
+def in_val(I, name):
+    """an arbitrary input value; if it is a reference it denotes a pre-existing object"""
+    v = z3.Const(name, V)
+    I.st.assume(z3.Implies(V.is_ref(v), V.id(v) <= 0))
+    return v
+
+
 def ddom(h, d):
     return z3.Select(h.ddom, V.id(d))
 
